@@ -204,7 +204,12 @@ def run_history_check(prop, tier, mode, runs, cat, budget_s, design_ref, assumpt
             keys = ("obs_img", "obs_ans", "obs_bans", "obs_lans") if r0.get("mask") == r1.get("mask") else ("obs_img",)
             if r0.get("mask") != r1.get("mask"):
                 agg["other"]["universe_difference:set_of_surviving_reference_calls"] += 1
-            diffs = [k for k in keys if r0.get(k) != r1.get(k)]
+            diffs = [k for k in keys if k != "obs_img" and r0.get(k) != r1.get(k)]
+            # images are compared label by label: a step that was skipped in one universe (its reference scan did
+            # not survive there) must not look like a different image
+            i0, i1 = r0.get("imgs") or {}, r1.get("imgs") or {}
+            if any(i0[l] != i1[l] for l in i0 if l in i1):
+                diffs.append("obs_img")
             if not diffs:
                 continue
             kind = dict_kind_of(r0)
@@ -345,9 +350,16 @@ def gate(hr, prop, mode, u, rec, d, seed):
         rc2, recs2, out2, err2 = S.run_one(argv_one(hr.exe, mode, seed, rec["run"], hr.cat, extra), env=universe_env(u2), timeout=180)
         o1 = [l for l in out.splitlines() if l.startswith("  obs ")]
         o2 = [l for l in out2.splitlines() if l.startswith("  obs ")]
-        diff = [(a, b) for a, b in zip(o1, o2) if a != b]
-        if not diff and len(o1) == len(o2):
-            return False, None
+        if d["class"] == "image_depends_on_heap_garbage":
+            m1 = dict(l.split()[1:3] for l in o1 if l.split()[1].startswith("img:"))
+            m2 = dict(l.split()[1:3] for l in o2 if l.split()[1].startswith("img:"))
+            diff = [("  obs %s %s" % (k, m1[k]), "  obs %s %s" % (k, m2[k])) for k in m1 if k in m2 and m1[k] != m2[k]]
+            if not diff:
+                return False, None
+        else:
+            diff = [(a, b) for a, b in zip(o1, o2) if a != b]
+            if not diff and len(o1) == len(o2):
+                return False, None
         replay["first_differing_observable"] = {"universe_%d" % u: diff[0][0].strip() if diff else "", "universe_%d" % u2: diff[0][1].strip() if diff else "", "differing": len(diff)}
         replay["universe_b"] = {"index": u2, "malloc_fill": UNIVERSES[u2][0], "free_fill": UNIVERSES[u2][1]}
         return True, replay
@@ -511,7 +523,12 @@ def replay_file(path):
         rc2, recs2, out2, err2 = S.run_one(argv_one(exe, rp["mode"], rp["base_seed"], rp["run"], rp["catalogue"], rp.get("extra", "")), env=universe_env(u2), timeout=600)
         o1 = [l for l in out.splitlines() if l.startswith("  obs ")]
         o2 = [l for l in out2.splitlines() if l.startswith("  obs ")]
-        same = o1 != o2
+        if exp == "image_depends_on_heap_garbage":
+            m1 = dict(l.split()[1:3] for l in o1 if l.split()[1].startswith("img:"))
+            m2 = dict(l.split()[1:3] for l in o2 if l.split()[1].startswith("img:"))
+            same = any(m1[k] != m2[k] for k in m1 if k in m2)
+        else:
+            same = o1 != o2
         cls = "universe observables %s" % ("differ" if same else "agree")
     print("replay: observed=%s expected=%s -> %s" % (cls, exp, "REPRODUCED" if same else "not reproduced"))
     if same:
